@@ -24,6 +24,7 @@
 #include <time.h>
 #include <unistd.h>
 
+#include <reproc/drain.h>
 #include <reproc/reproc.h>
 
 static const char *g_vchild, *g_scratch;
@@ -193,6 +194,28 @@ static void *reader_thread(void *arg)
   return NULL;
 }
 
+typedef struct {
+  job *j;
+  long got[3], bad[3], closes[3];
+} dsink;
+
+static int drain_sink(REPROC_STREAM stream, const uint8_t *buf, size_t size, void *ctx)
+{
+  dsink *d = ctx;
+  job *j = d->j;
+  if (stream != REPROC_STREAM_OUT && stream != REPROC_STREAM_ERR) return 0;
+  if (size == 0) d->closes[stream]++;
+  for (size_t i = 0; i < size; i++) {
+    long pos = d->got[stream] + (long) i;
+    uint8_t want;
+    if (stream == REPROC_STREAM_ERR) want = poscode(2, (uint64_t) pos);
+    else want = pos < j->nout ? poscode(1, (uint64_t) pos) : poscode(0, (uint64_t) (pos - j->nout));
+    if (buf[i] != want && d->bad[stream] < 0) d->bad[stream] = pos;
+  }
+  d->got[stream] += (long) size;
+  return 0;
+}
+
 static void *cycle(void *arg)
 {
   job *j = arg;
@@ -231,6 +254,17 @@ static void *cycle(void *arg)
     pthread_join(rt, NULL);
     got_out = rc.got_out;
     bad_out = rc.bad_out;
+  } else if (j->scenario == 3) {
+    // reproc_drain from several threads at once, each on its own child
+    writer_thread(j);
+    dsink d = { j, { 0, 0, 0 }, { -1, -1, -1 }, { 0, 0, 0 } };
+    reproc_sink so = { drain_sink, &d }, se = { drain_sink, &d };
+    int dr = reproc_drain(j->p, so, se);
+    if (dr != 0) vio("drain-failed", j, "reproc_drain returned %ld", dr, 0, 0);
+    got_out = d.got[1];
+    bad_out = d.bad[1];
+    got_err = d.got[2];
+    bad_err = d.bad[2];
   } else {
     writer_thread(j);
     got_out = read_all(j, REPROC_STREAM_OUT, &bad_out);
@@ -368,7 +402,7 @@ int main(int argc, char **argv)
     W->nchild = 0;
     W->delay_seed = x;
     ST(g_rep, rep);
-    int scenario = rep % 3;  // 0: reader+writer threads per child, 1/2: complete cycles per thread
+    int scenario = rep % 4;  // 0: reader+writer threads per child, 1/2: complete cycles per thread, 3: cycles through reproc_drain
     int nt = scenario == 0 ? 2 + (int) (x % 7) : 2 + (int) ((x >> 3) % (unsigned) (maxthreads - 1));
     if (nt > maxthreads) nt = maxthreads;
     njobs = nt;
